@@ -1,1 +1,1 @@
-from . import c12, c06, c09, c16, c02, c08, c03, c19, c07, c20, c04, c17, c11, c14, c18, c13, c01, c15, c10  # noqa: F401
+from . import c12, c06, c09, c16, c02, c08, c03, c19, c07, c20, c04, c17, c11, c14, c18, c13, c01, c15, c10, c05  # noqa: F401
